@@ -179,6 +179,9 @@ type Options struct {
 	// HierarchyEvery / Hierarchy: the same for NewHierarchyCase.
 	HierarchyEvery int
 	Hierarchy      bool
+	// MutualEvery / Mutual: the same for NewMutualCase.
+	MutualEvery int
+	Mutual      bool
 }
 
 // NewCase generates one case from the PRNG.
@@ -186,7 +189,13 @@ func NewCase(r *rand.Rand, name string, opt Options) *Case {
 	if opt.Algebra {
 		return NewAlgebraCase(r, name)
 	}
+	if opt.Mutual {
+		return NewMutualCase(r, name)
+	}
 	if opt.Hierarchy {
+		if r.Intn(3) == 0 {
+			return NewMutualCase(r, name)
+		}
 		return NewHierarchyCase(r, name)
 	}
 	g := &modelGen{r: r, rels: map[string][]string{}, hasPar: map[string]bool{}, parents: map[string][]string{}, feat: map[string]bool{}}
@@ -1072,6 +1081,99 @@ func NewHierarchyCase(r *rand.Rand, name string) *Case {
 	for n := r.Intn(4); n > 0; n-- {
 		add(pick("doc"), "viewer", pick("group"))
 		feat["leftover"] = true
+	}
+	sort.Slice(c.Tuples, func(i, j int) bool { return TupleString(c.Tuples[i]) < TupleString(c.Tuples[j]) })
+	r.Shuffle(len(c.Tuples), func(i, j int) { c.Tuples[i], c.Tuples[j] = c.Tuples[j], c.Tuples[i] })
+	return c
+}
+
+// NewMutualCase generates mutually recursive usersets across two types (group.member: [user,
+// folder#viewer]; folder.viewer: [user, group#member], optionally a derived relation on top) over a
+// random bipartite userset graph with chains and cycles. No single-type recursion: the engines'
+// recursive strategies do not apply, every userset is resolved by plain dispatch, and sub-problems met
+// below a cycle cut are asked again at top level by other requests (what result caches must survive).
+func NewMutualCase(r *rand.Rand, name string) *Case {
+	ids := wideIDs
+	feat := map[string]bool{"mutual-recursion": true, "userset": true}
+	td := func(t string) *openfgav1.TypeDefinition {
+		return &openfgav1.TypeDefinition{Type: t, Relations: map[string]*openfgav1.Userset{}, Metadata: &openfgav1.Metadata{Relations: map[string]*openfgav1.RelationMetadata{}}}
+	}
+	def := func(d *openfgav1.TypeDefinition, rel string, rw *openfgav1.Userset, restr ...*openfgav1.RelationReference) {
+		d.Relations[rel] = rw
+		d.Metadata.Relations[rel] = &openfgav1.RelationMetadata{DirectlyRelatedUserTypes: restr}
+	}
+	group, folder, doc := td("group"), td("folder"), td("doc")
+	def(group, "member", this(), Ref("user", "", false, ""), Ref("folder", "viewer", false, ""))
+	def(folder, "viewer", this(), Ref("user", "", false, ""), Ref("group", "member", false, ""))
+	switch r.Intn(4) {
+	case 0:
+		def(folder, "blocked", this(), Ref("user", "", false, ""))
+		def(folder, "editor", difference(computed("viewer"), computed("blocked")))
+		feat["exclusion"] = true
+	case 1:
+		def(folder, "owner", this(), Ref("user", "", false, ""), Ref("group", "member", false, ""))
+		def(folder, "editor", intersection(computed("viewer"), computed("owner")))
+		feat["intersection"] = true
+	}
+	def(doc, "parent", this(), Ref("folder", "", false, ""))
+	def(doc, "viewer", union(this(), ttu("parent", "viewer")), Ref("user", "", false, ""), Ref("group", "member", false, ""))
+	model := &openfgav1.AuthorizationModel{SchemaVersion: "1.1", Conditions: map[string]*openfgav1.Condition{},
+		TypeDefinitions: []*openfgav1.TypeDefinition{{Type: "user"}, group, folder, doc}}
+	perm := &openfgav1.AuthorizationModel{SchemaVersion: "1.1", Conditions: map[string]*openfgav1.Condition{}, TypeDefinitions: []*openfgav1.TypeDefinition{{Type: "user"}}}
+	var all []*openfgav1.RelationReference
+	for _, t := range typeOrder {
+		all = append(all, Ref(t, "", false, ""), Ref(t, "", true, ""))
+	}
+	for _, d := range []*openfgav1.TypeDefinition{group, folder, doc} {
+		for rel := range d.Relations {
+			all = append(all, Ref(d.Type, rel, false, ""))
+		}
+	}
+	for _, d := range []*openfgav1.TypeDefinition{group, folder, doc} {
+		p := td(d.Type)
+		for rel := range d.Relations {
+			def(p, rel, this(), all...)
+		}
+		perm.TypeDefinitions = append(perm.TypeDefinitions, p)
+	}
+	c := &Case{Name: name, Model: model, Permissive: perm, Features: feat, IDs: ids, Contexts: []*structpb.Struct{nil}}
+	seen := map[string]bool{}
+	add := func(o, rel, u string) {
+		k := o + "#" + rel + "@" + u
+		if !seen[k] {
+			seen[k] = true
+			c.Tuples = append(c.Tuples, &openfgav1.TupleKey{Object: o, Relation: rel, User: u})
+		}
+	}
+	pick := func(t string) string { return t + ":" + ids[t][r.Intn(len(ids[t]))] }
+	for _, g := range ids["group"] {
+		for n := 1 + r.Intn(2); n > 0; n-- {
+			add("group:"+g, "member", pick("folder")+"#viewer")
+		}
+	}
+	for _, f := range ids["folder"] {
+		for n := r.Intn(3); n > 0; n-- {
+			add("folder:"+f, "viewer", pick("group")+"#member")
+		}
+	}
+	for n := 2 + r.Intn(3); n > 0; n-- {
+		if r.Intn(2) == 0 {
+			add(pick("group"), "member", pick("user"))
+		} else {
+			add(pick("folder"), "viewer", pick("user"))
+		}
+	}
+	for rel := range folder.Relations {
+		if rel == "blocked" || rel == "owner" {
+			for n := 1 + r.Intn(3); n > 0; n-- {
+				add(pick("folder"), rel, pick("user"))
+			}
+		}
+	}
+	for _, d := range ids["doc"] {
+		if r.Intn(2) == 0 {
+			add("doc:"+d, "parent", pick("folder"))
+		}
 	}
 	sort.Slice(c.Tuples, func(i, j int) bool { return TupleString(c.Tuples[i]) < TupleString(c.Tuples[j]) })
 	r.Shuffle(len(c.Tuples), func(i, j int) { c.Tuples[i], c.Tuples[j] = c.Tuples[j], c.Tuples[i] })
